@@ -52,7 +52,7 @@ def run(ctx):
                    simulate="num=%d" % (1500 if q else 40000), depth=14, timeout=3000)["emitted"]
     ctx.extra["histories"] = {"exhaustive_depth2": n2, "total": len(beh)}
     ctx.exhaustive = True
-    results = ctx.replay("replay-link", beh, timeout=3400)
+    results = ctx.replay("replay-link", beh, timeout=3400 if q else 9000)
     for b, r in zip(beh, results):
         for f in r.get("fails", []):
             ctx.fail(f["key"], f["msg"], replay=b)
